@@ -52,5 +52,6 @@ RWMutexMissingRLock race
 Timers clean
 OnceAtomic clean
 OsSentinels clean
+FormParse clean
 LIST
 [ $fail = 0 ] && echo "SELFTEST OK" || { echo "SELFTEST FAILED"; exit 1; }
